@@ -322,6 +322,7 @@ func runC20(c *core.Ctx) {
 			return false
 		}
 		wtp := writesThroughParam(p)
+		shared := sharedTypes(p)
 		nsites := 0
 		for _, fn := range p.ModFns {
 			pk := core.FuncPkg(fn)
@@ -332,6 +333,31 @@ func runC20(c *core.Ctx) {
 			for _, ci := range core.Calls(fn) {
 				if cv := core.CallValue(ci); cv != nil && isGetterCall(ci) {
 					handed = append(handed, cv)
+				}
+			}
+			if len(handed) == 0 && !readsSharedSliceField(fn, shared) {
+				continue
+			}
+			// an in-place filter of a slice read from a field of a shared object (x.Members[:0] as the base of append)
+			// overwrites the object's own array
+			nfld := 0
+			for _, ci := range core.Calls(fn) {
+				bi, ok := ci.Common().Value.(*ssa.Builtin)
+				if !ok || bi.Name() != "append" || len(ci.Common().Args) == 0 {
+					continue
+				}
+				for w := range core.BackSlice(ci.Common().Args[0], core.SliceOpts{Local: true, Stores: true}) {
+					sl, ok := w.(*ssa.Slice)
+					if !ok || sl.Max != nil || sl.High == nil {
+						continue
+					}
+					if k, isK := core.ConstInt(sl.High); !isK || k != 0 {
+						continue
+					}
+					if why := sharedSliceField(sl.X, fn, shared); why != "" {
+						nfld++
+						c.Fail(fmt.Sprintf("%s#in-place-filter-of-%s/%d", core.FuncKey(fn), why, nfld), p.Pos(ci.Pos()), "append builds its result in the array of "+why+" (the base is that field cut to length zero): the object is shared - a compiled selector between concurrent walks, a type between bindings - and every other user sees its members overwritten")
+					}
 				}
 			}
 			if len(handed) == 0 {
@@ -980,4 +1006,66 @@ func chaReach(p *core.Program, cg *callgraph.Graph, entries []*ssa.Function) map
 		}
 	}
 	return pred
+}
+
+// sharedSliceField: v is a slice read from a field of a value of a shared type that the function did not create itself
+// (it came in through a parameter, a receiver, an interface unwrapped by a type assertion ...). Returns "Type.field".
+func sharedSliceField(v ssa.Value, fn *ssa.Function, shared map[*types.TypeName]string) string {
+	v = core.Strip(v)
+	var base ssa.Value
+	var st types.Type
+	var idx int
+	switch x := v.(type) {
+	case *ssa.UnOp:
+		fa, ok := x.X.(*ssa.FieldAddr)
+		if !ok || x.Op != token.MUL {
+			return ""
+		}
+		base, idx = fa.X, fa.Field
+		st = fa.X.Type()
+		if pt, ok := st.Underlying().(*types.Pointer); ok {
+			st = pt.Elem()
+		}
+	case *ssa.Field:
+		base, idx, st = x.X, x.Field, x.X.Type()
+	default:
+		return ""
+	}
+	nt := namedOfType(st)
+	if nt == nil || shared[nt.Obj()] == "" {
+		return ""
+	}
+	// created here? (a composite literal or local being filled in by a constructor)
+	root := classifyForParam(base)
+	if al, ok := root.(*ssa.Alloc); ok {
+		fromOutside := false
+		for _, ref := range *al.Referrers() {
+			if stx, ok := ref.(*ssa.Store); ok && stx.Addr == ssa.Value(al) {
+				switch core.Strip(stx.Val).(type) {
+				case *ssa.Parameter, *ssa.TypeAssert, *ssa.Extract, *ssa.UnOp, *ssa.Phi:
+					fromOutside = true
+				}
+			}
+		}
+		if !fromOutside {
+			return ""
+		}
+	}
+	if sst, ok := nt.Underlying().(*types.Struct); ok && idx < sst.NumFields() {
+		return nt.Obj().Name() + "." + sst.Field(idx).Name()
+	}
+	return nt.Obj().Name()
+}
+
+// readsSharedSliceField: fn reads a slice-typed field of a shared type at all (cheap pre-filter).
+func readsSharedSliceField(fn *ssa.Function, shared map[*types.TypeName]string) bool {
+	found := false
+	core.Instrs(fn, func(in ssa.Instruction) {
+		if v, ok := in.(ssa.Value); ok {
+			if _, isSlice := v.Type().Underlying().(*types.Slice); isSlice && sharedSliceField(v, fn, shared) != "" {
+				found = true
+			}
+		}
+	})
+	return found
 }
